@@ -261,3 +261,45 @@ def index_of(path, pred, start=0):
         if pred(path.events[i]):
             return i
     return -1
+
+
+def constants_on_path(events, subject):
+    """Which constant values can `subject` (a dotted name such as 'expr.kind') have on a path?  Evaluates the tests of the subject
+    against constants along the path with their polarity: `s == c`, `s != c`, `s in {c, ...}` / `(c, ...)` / `[c, ...]`, `s not in ...`
+    and `not (...)` of these.  Returns (pos, neg): pos is the set the subject is confined to (None when no positive test was
+    seen), neg the set of excluded values.  Local aliases `k = <subject>` defined earlier on the path are followed.  The spelling
+    of the test does not matter: `s == 'a'`, `s in {'a'}` and `not s != 'a'` give the same answer."""
+    pos, neg = None, set()
+    aliases = {subject}
+    for e in events:
+        if e.kind == "stmt" and isinstance(e.node, ast.Assign) and len(e.node.targets) == 1 and isinstance(e.node.targets[0], ast.Name):
+            if dotted(e.node.value) in aliases:
+                aliases.add(e.node.targets[0].id)
+            else:
+                aliases.discard(e.node.targets[0].id)
+            continue
+        if e.kind != "test":
+            continue
+        t, pol = e.node, e.pol
+        while isinstance(t, ast.UnaryOp) and isinstance(t.op, ast.Not):
+            t, pol = t.operand, not pol
+        if not (isinstance(t, ast.Compare) and len(t.ops) == 1):
+            continue
+        left, right, op = t.left, t.comparators[0], t.ops[0]
+        if dotted(left) not in aliases and dotted(right) in aliases and isinstance(op, (ast.Eq, ast.NotEq)):
+            left, right = right, left
+        if dotted(left) not in aliases:
+            continue
+        if isinstance(right, (ast.Set, ast.Tuple, ast.List)) and all(isinstance(x, ast.Constant) for x in right.elts) and isinstance(op, (ast.In, ast.NotIn)):
+            ks = {x.value for x in right.elts}
+        elif isinstance(right, ast.Constant) and isinstance(op, (ast.Eq, ast.NotEq)):
+            ks = {right.value}
+        else:
+            continue
+        if isinstance(op, (ast.NotIn, ast.NotEq)):
+            pol = not pol
+        if pol:
+            pos = set(ks) if pos is None else pos & ks
+        else:
+            neg |= ks
+    return pos, neg
